@@ -247,3 +247,4 @@ Fixpoint attempts (k : nat) (t delta : N) (resp : option N) : list N * bool * N 
   end.
 
 Definition client_run (resp : option N) : list N * bool * N := attempts 7 0%N 500%N resp.
+
